@@ -11,7 +11,8 @@ Definitions used in the statements of `Props/C07Render.lean` and of the preceden
 * `canon` — the declarative meaning of a skeleton (`layered` = and > xor > or, flattened);
 * `Renders` / `RendersSimple` / `RendersTail` — ALL the character strings that spell a skeleton:
   any alias of the model's tables at every operator occurrence, any amount of layout wherever
-  the grammar skips spaces;
+  the grammar skips spaces (the word `not` may be glued to its operand unless the glued text
+  spells a registered name: `glueOk`, from `LogicalExpr::lex_unary_op`);
 * `Stop`, `NoOp`, `Admissible` — what may follow a rendering.
 
 No property statements here.
@@ -103,7 +104,8 @@ atom (`prevAtom`) and the following combining operator there is at least one spa
 atoms are known to stop before symbols (`tight`) and the operator is spelled symbolically.
 Everywhere else (after any operator incl. `not`/`and`/`or`/`xor`, inside parentheses, after `)`)
 zero or more spaces are allowed: the lexer does not look for a word boundary after an operator
-(`nota`, `a andb` parse as `not a`, `a and b`, in the model as in the Rust `lex_enum!` lexers). -/
+(`a andb` parses as `a and b`, and `nota` as `not a` unless `nota` is a registered name — see
+`glueOk` —, in the model as in the Rust lexers). -/
 def sepOk (tight prevAtom : Bool) (ws : Input) (al : String) : Bool :=
   !prevAtom || !ws.isEmpty || (tight && symbolic al)
 
@@ -119,47 +121,67 @@ def Admissible (tight : Bool) (sk : Sk α) (rest : Input) : Prop :=
 
 /-- **GoodAtom**: at every nesting budget and before every continuation the atom stops at, the
 comparison lexer reads exactly the atom's text, returns the atom's node with type `Bool` and
-leaves the continuation; the text is not taken for a unary operator or a quantifier call; the
+leaves the continuation; the text is not taken for a unary operator (`lex_unary_op`: a registered
+name that merely begins with `not` is NOT taken for one) or a quantifier call; the
 node is not a bare `combining` node. (That the text is non-empty and starts neither with a space
 nor with `(` follows from the first clause: it starts with an identifier character.) -/
 structure GoodAtom (env : PEnv) (A : Atoms α) (tight : Bool) (a : α) : Prop where
   parses : ∀ (n : Nat) (rest : Input), Stop tight rest = true →
     comparisonL env (lowerOf env n) (A.txt a ++ rest) =
       .ok ({ node := A.node a, ty := .bool }, rest)
-  noUnary : ∀ rest : Input, Stop tight rest = true → lexEnum unaryOps (A.txt a ++ rest) = none
+  noUnary : ∀ rest : Input, Stop tight rest = true → lexUnary env (A.txt a ++ rest) = none
   noQuant : ∀ rest : Input, Stop tight rest = true → lexQuantCall (A.txt a ++ rest) = none
   notCombining : isCombining (A.node a) = false
 
 /-! ### renderings -/
 
+/-- the maximal run of name characters (identifier characters and dots) at the start of a text:
+what `Identifier::lex_with` looks up when it succeeds -/
+def nameRun : Input → Input
+  | [] => []
+  | c :: cs => if isIdentChar c || c == '.' then c :: nameRun cs else []
+
+/-- **Where the word `not` may be written without a space** (`LogicalExpr::lex_unary_op`):
+always when layout follows (`ws ≠ []`), always for `!`, always when the operand `t` starts with
+no name character (`not(a)`, `not!a`); glued to a name character (`nota`, `not.a`, `notnot a`)
+only if the maximal run of name characters starting at the `n` is not a registered name —
+otherwise the lexer reads that identifier, not the operator. Decidable on a given text; vacuous
+for schemes without names that begin with `not`. -/
+def glueOk (env : PEnv) (al : String) (ws t : Input) : Bool :=
+  !ws.isEmpty || al != "not" || !gluedTo t ||
+    (env.scheme.get (nameRun (al.toList ++ t))).isNone
+
 mutual
-/-- renderings of a *simple* expression: an atom's text; `not`/`!` + layout + simple;
-`(` layout logical layout `)` -/
-inductive RendersSimple (A : Atoms α) (tight : Bool) : Sk α → Input → Prop
-  | atom (a : α) : RendersSimple A tight (.atom a) (A.txt a)
+/-- renderings of a *simple* expression: an atom's text; `not`/`!` + layout + simple (no layout
+at all only where `glueOk` allows it: the scheme `env` is a parameter for this one side
+condition); `(` layout logical layout `)` -/
+inductive RendersSimple (env : PEnv) (A : Atoms α) (tight : Bool) : Sk α → Input → Prop
+  | atom (a : α) : RendersSimple env A tight (.atom a) (A.txt a)
   | not {s : Sk α} {t : Input} (al : String) (ws : Input) :
-      (al, ()) ∈ unaryOps → Layout ws = true → RendersSimple A tight s t →
-      RendersSimple A tight (.not s) (al.toList ++ (ws ++ t))
+      (al, ()) ∈ unaryOps → Layout ws = true → glueOk env al ws t = true →
+      RendersSimple env A tight s t →
+      RendersSimple env A tight (.not s) (al.toList ++ (ws ++ t))
   | paren {s : Sk α} {t : Input} (ws₁ ws₂ : Input) :
-      Layout ws₁ = true → Layout ws₂ = true → Renders A tight s t →
-      RendersSimple A tight (.paren s) ('(' :: (ws₁ ++ (t ++ (ws₂ ++ [')']))))
+      Layout ws₁ = true → Layout ws₂ = true → Renders env A tight s t →
+      RendersSimple env A tight (.paren s) ('(' :: (ws₁ ++ (t ++ (ws₂ ++ [')']))))
 /-- **renderings of a skeleton** as a logical expression: a simple one, or a chain = first operand
 followed by the renderings of `(operator, operand)` pairs -/
-inductive Renders (A : Atoms α) (tight : Bool) : Sk α → Input → Prop
-  | simple {s : Sk α} {t : Input} : RendersSimple A tight s t → Renders A tight s t
+inductive Renders (env : PEnv) (A : Atoms α) (tight : Bool) : Sk α → Input → Prop
+  | simple {s : Sk α} {t : Input} : RendersSimple env A tight s t → Renders env A tight s t
   | chain {f : Sk α} {r : List (LogicalOp × Sk α)} {t u : Input} :
-      RendersSimple A tight f t → RendersTail A tight (endsAtom f) r u →
-      Renders A tight (.chain f r) (t ++ u)
+      RendersSimple env A tight f t → RendersTail env A tight (endsAtom f) r u →
+      Renders env A tight (.chain f r) (t ++ u)
 /-- renderings of `o₁ e₁ … oₙ eₙ` after an operand (`prevAtom` = does it end with an atom):
 layout, ANY spelling of `oᵢ` from `logicalOps`, layout, a simple rendering of `eᵢ` -/
-inductive RendersTail (A : Atoms α) (tight : Bool) : Bool → List (LogicalOp × Sk α) → Input → Prop
-  | nil (b : Bool) : RendersTail A tight b [] []
+inductive RendersTail (env : PEnv) (A : Atoms α) (tight : Bool) :
+    Bool → List (LogicalOp × Sk α) → Input → Prop
+  | nil (b : Bool) : RendersTail env A tight b [] []
   | cons {b : Bool} {o : LogicalOp} {s : Sk α} {r : List (LogicalOp × Sk α)} {t u : Input}
       (ws₁ : Input) (al : String) (ws₂ : Input) :
       Layout ws₁ = true → (al, o) ∈ logicalOps → Layout ws₂ = true →
       sepOk tight b ws₁ al = true →
-      RendersSimple A tight s t → RendersTail A tight (endsAtom s) r u →
-      RendersTail A tight b ((o, s) :: r) (ws₁ ++ (al.toList ++ (ws₂ ++ (t ++ u))))
+      RendersSimple env A tight s t → RendersTail env A tight (endsAtom s) r u →
+      RendersTail env A tight b ((o, s) :: r) (ws₁ ++ (al.toList ++ (ws₂ ++ (t ++ u))))
 end
 
 /-- operands as the stream items of `Unfolds` -/
